@@ -153,6 +153,9 @@ class StmtMixin:
                 new[self._pykey(key)] = v
                 self.store_lvalue(s, lv[1], py(new))
                 return
+            if cont.ty.kind == "dict" and cont.meta and cont.meta.get("empty") and (key.is_py or z3.is_string_value(key.t)):
+                self.store_lvalue(s, lv[1], py({self._pykey(key): v}))     # python-level dict with concrete keys
+                return
             if cont.ty.kind == "dict":
                 if cont.meta and cont.meta.get("empty"):
                     kk = key if not key.is_py else self.lift(key.t)
@@ -384,6 +387,11 @@ class StmtMixin:
         if items is not None:
             return self.unroll_for(n, st, items)
         spec = self.loop_spec(n)
+        if spec is None and self.effect_free(n):
+            # nothing is assigned, mutated, returned or raised in the body (only dropped logging calls and pure tests):
+            # the loop has no effect on the state (recorded: evaluation of its tests is assumed not to raise)
+            self.stats["effect_free_loops_skipped"] += 1
+            return [st]
         if spec is None:
             raise Unsupported(f"loop at line {n.lineno} over a symbolic collection has no loop contract")
         return self.invariant_for(n, st, it, spec)
@@ -417,6 +425,25 @@ class StmtMixin:
             s.ghost.pop("__broke__", None)
             res.append(s)
         return res
+
+    def effect_free(self, n):
+        names, fields = self.modified_by(n.body)
+        inner_targets = set()
+        for b in n.body:
+            for x in ast.walk(b):
+                if isinstance(x, ast.For):
+                    inner_targets |= self._target_names(x.target)
+        if (names - inner_targets) or fields or n.orelse:
+            return False
+        for b in n.body:
+            for x in ast.walk(b):
+                if isinstance(x, (ast.Return, ast.Raise, ast.Break, ast.Yield, ast.YieldFrom, ast.Assert, ast.Delete, ast.With, ast.Try)):
+                    return False
+                if isinstance(x, ast.Expr) and isinstance(x.value, ast.Call) and not self.is_dropped_call(x.value):
+                    return False
+                if isinstance(x, ast.For) and not self.effect_free(x):
+                    return False
+        return True
 
     def loop_spec(self, n):
         c = self.current
@@ -547,6 +574,12 @@ class StmtMixin:
 
     def invariant_for(self, n, st, it, spec):
         ordn = self.loop_ordinal(n)
+        if spec.capture:
+            import inspect as _i
+            st = st.copy()
+            for cname, cfn in spec.capture.items():
+                amap = {p_: self.lookup(p_, st) for p_ in _i.signature(cfn).parameters}
+                st.env[cname] = self.eval_spec_fn(st, cfn, amap)
         names, fields = self.modified_by(n.body)
         for x in ast.walk(n.target):
             if isinstance(x, ast.Name):
